@@ -25,6 +25,8 @@ def run(ctx):
     ctx.not_decided = ["layout invariance of the parse result for all inputs", "termination of the hand-written Colang 1.0 parser loops"]
     a_b_conversion(ctx)
     layout_facts(ctx)
+    loop_progress(ctx)
+    v1_insert_progress(ctx)
     if ctx.thorough:
         c_regexes(ctx)
 
@@ -200,6 +202,31 @@ def layout_facts(ctx):
     ctx.check("C13.layout", LARK, "grammar", "_NEWLINE", ok, "_NEWLINE absorbs runs of blank lines and their indentation: %s" % (m.group(1) if m else None))
     m = re.search(r"^COMMENT\s*:\s*/(.*)/\s*$", g, re.M)
     ctx.check("C13.layout", LARK, "grammar", "COMMENT", bool(m) and m.group(1) == "#[^\\n]*", "a comment extends to the end of the line only")
+    # the continuation terminals _AND/_OR embed the newline pattern: they must absorb exactly what _NEWLINE absorbs
+    nl = re.search(r"^_NEWLINE\s*:\s*\(/(.+?)/\)\+\s*$", g, re.M)
+    only_regex = bool(nl) and "|" not in re.sub(r"\[[^\]]*\]", "", nl.group(1))
+    for term in ("_AND", "_OR"):
+        tm = re.search(r"^%s(?:\.\d+)?\s*:\s*/(.*)/\s*$" % term, g, re.M)
+        ok_t = bool(tm) and bool(nl) and only_regex and ("(%s)+" % nl.group(1)) in tm.group(1)
+        ctx.check("C13.layout", LARK, "grammar", "%s embeds the _NEWLINE pattern" % term, ok_t,
+                  "the line-continuation terminal %s absorbs exactly the newline/indent runs that _NEWLINE absorbs (%s)" % (term, nl.group(1) if nl else None) if ok_t else
+                  "_NEWLINE (%s) and the newline part of %s (%s) differ: a layout-only edit before a continuation line (`or ...` / `and ...`) changes the token stream" % (
+                      m.group(1) if m else None, term, tm.group(1) if tm else None))
+    # pre-parsing rewrites run on raw lines, i.e. BEFORE comments and trailing blanks are ignored: they must not be end-anchored
+    P2 = "nemoguardrails/colang/v2_x/lang/parser.py"
+    tp = ctx.tree.ast(P2)
+    pre = find_function(tp, "_apply_pre_parsing_expansions")
+    if pre is None:
+        raise AnalysisError("_apply_pre_parsing_expansions not found", anchor=P2 + "::_apply_pre_parsing_expansions")
+    pats = [c for c in ast.walk(pre) if isinstance(c, ast.Call) and src(c.func) in ("re.sub", "re.match", "re.search", "re.fullmatch") and c.args and isinstance(c.args[0], ast.Constant)]
+    ctx.floor("C13.layout", P2, "pre-parsing rewrite patterns", len(pats), 1)
+    for c in pats:
+        pat = c.args[0].value
+        anchored = pat.endswith("$") and not re.search(r"\\s\*(\(#.*\)\?)?\$$", pat) or src(c.func) == "re.fullmatch"
+        ctx.check("C13.layout", P2, "_apply_pre_parsing_expansions", "pattern %r" % pat, not anchored,
+                  "the pre-parsing pattern is not anchored at the end of the raw line (trailing blanks / an end-of-line comment do not change what it rewrites)" if not anchored else
+                  "the pre-parsing pattern %r is anchored at the end of the RAW line: trailing whitespace or an end-of-line comment (layout only) stop the rewrite and the file no longer parses the same" % pat,
+                  line=c.lineno)
     t = ctx.tree.ast(LOAD)
     ok = any(isinstance(c, ast.Call) and src(c.func) == "Lark" and any(k.arg == "postlex" and "PythonIndenter" in src(k.value) for k in c.keywords) for c in ast.walk(t))
     ctx.check("C13.layout", LOAD, "load_lark_parser", "postlex=PythonIndenter()", ok, "indentation is delegated to lark's PythonIndenter (compares indentation widths only: scale-free)")
@@ -344,3 +371,57 @@ def _exp_backtracking(tree, sre):
 
     walk(tree)
     return res
+
+
+def loop_progress(ctx):
+    """`never a hang` for the loader's own loop: every iteration of the file loop records the file as parsed
+    (or leaves by an exception)."""
+    t = ctx.tree.ast(CFGPY)
+    fn = find_function(t, "_parse_colang_files_recursively")
+    cfg = CFG(fn)
+    loops = [n for n in cfg.nodes if n.kind == "test" and isinstance(n.stmt, ast.While) and "len(" in src(n.ast)]
+    ctx.floor("C13.e.loop-progress", CFGPY, "file loop of the Colang loader", len(loops), 1)
+    for w in loops:
+        m = re.match(r"^len\((\w+)\) != len\((\w+)\)$", src(w.ast))
+        if not m:
+            ctx.check("C13.e.loop-progress", CFGPY, fn.name, src(w.ast), False, "loop condition is not a length comparison of the parsed list and the file list", line=w.line)
+            continue
+        grown = m.group(1)
+        apps = [n for n in cfg.nodes if n.kind == "stmt" and isinstance(n.ast, ast.Expr) and isinstance(n.ast.value, ast.Call)
+                and src(n.ast.value.func) == "%s.append" % grown]
+        first = [x for x, lab in w.succ if lab is True]
+        ok = bool(apps) and all(cfg.must_pass(f, w, apps, include_a=True) for f in first)
+        ctx.check("C13.e.loop-progress", CFGPY, fn.name, "while %s" % src(w.ast), ok,
+                  "every path through one iteration appends to `%s` (or raises), so the loop terminates after one pass per file" % grown if ok else
+                  "some path through the loop body returns to the loop test without appending to `%s`: for such a file the loader spins forever instead of finishing or raising a parsing error" % grown,
+                  line=w.line)
+
+
+def v1_insert_progress(ctx):
+    """Colang 1.0 parser: the synthetic example line that `_process_define` inserts for `define user X` must only be
+    inserted for such a line; inserted for any other define, the inserted line IS that define again and the main
+    loop never ends (file truncated after a define header)."""
+    from ..coflow import evaluate, truth, TOP
+    P1 = "nemoguardrails/colang/v1_0/lang/colang_parser.py"
+    t = ctx.tree.ast(P1)
+    fn = find_function(t, "_process_define")
+    if fn is None:
+        raise AnalysisError("_process_define not found", anchor=P1 + "::_process_define")
+    sites = [i for i in ast.walk(fn) if isinstance(i, ast.If) and any(isinstance(c, ast.Call) and src(c.func) == "self.lines.insert" for s in i.body for c in ast.walk(s))
+             and any("replace('define user'" in src(s) or 'replace("define user"' in src(s) for s in i.body)]
+    ctx.floor("C13.f.v1-insert-progress", P1, "synthetic-line insertion for `define user`", len(sites), 1)
+    for i in sites:
+        class Sub(ast.NodeTransformer):
+            def visit_Call(self, node):
+                if src(node) in ("self.text.startswith('define user')", 'self.text.startswith("define user")'):
+                    return ast.copy_location(ast.Constant(value=False), node)
+                return self.generic_visit(node)
+        import copy
+        test2 = Sub().visit(copy.deepcopy(i.test))
+        ast.fix_missing_locations(test2)
+        v = truth(evaluate(test2, {}))
+        ok = v is False
+        ctx.check("C13.f.v1-insert-progress", P1, "_process_define", first_line(i.test, 100), ok,
+                  "the synthetic line is inserted only for a `define user` line (the guard is false whenever the line is another kind of define)" if ok else
+                  "the guard `%s` can be true for a define that is not `define user` (e.g. at end of file): the inserted line is then the define itself, which is processed again and inserts again - the parser never terminates on a file truncated after a define header" % first_line(i.test, 120),
+                  line=i.lineno)
